@@ -75,6 +75,8 @@ def track_trace(sc):
         tr.rng = rng
         state.append(X=np.array(sc["x"], float) / QP, Y=np.array(sc["y"], float) / QP, Z=np.array(sc["z"], float) / QZ)
         state["active"] = np.array(sc["active"], bool)
+        if sc.get("dead"):          # particles that are already dead (killed by an IBM, still in the arrays: the dense layout never removes them)
+            state["alive"] = ~np.array(sc["dead"], bool)
 
         def snap():
             x, o1 = lat(state.X, QP)
@@ -154,6 +156,7 @@ def scenario(rng, *, horiz_diff, vert_diff, vadv, advect, land, flat):
         y.append(j * QP + rng.choice(range(-127, 128, 2)))
         z.append(rng.choice([0, 1, H[j][i] * QZ // 2, H[j][i] * QZ - 1, H[j][i] * QZ]))
         act.append(rng.random() > 0.15)
+    dead = [rng.random() < 0.1 for _ in range(n)]
     steps = []
     k = 2 * dt
     unit = max(1, (dx // k) if dx % k == 0 and dx >= k else 1)
@@ -169,5 +172,5 @@ def scenario(rng, *, horiz_diff, vert_diff, vadv, advect, land, flat):
     stream = (stream * 30)[: 400]
     stream = [v * (2 if (s * 16 * 4) % dx == 0 and ((s * 16 * 4) // dx) % 2 == 1 else 1) for v in stream]
     return dict(imax=imax, jmax=jmax, M=M, H=H, subgrid=sub, dt=dt, dx=dx, dy=dy, adv=rng.choice(["EF", "RK2", "RK4"]) if advect else "",
-                D=D, Dz=Dz, s16=int(round(s * 16)), sz16=int(round(sz * 16)), vadv=vadv, x=x, y=y, z=z, active=act, steps=steps, stream=stream,
+                D=D, Dz=Dz, s16=int(round(s * 16)), sz16=int(round(sz * 16)), vadv=vadv, x=x, y=y, z=z, active=act, dead=dead, steps=steps, stream=stream,
                 cls=dict(hdiff=horiz_diff, vdiff=vert_diff, vadv=vadv, advect=advect, flat=flat))
